@@ -9,7 +9,9 @@ TRUSTED_BASE = [
     'hand-written Gallina model coq/Model/*.v of base, containers, macros (expansion), portable, io of /repo and of '
     'stavec 0.4.2 as reached through Deref (modelled, not verified)',
     'extraction: ExtrOcamlBasic only (Extract Inductive bool, option, unit, list, prod, sumbool); no Extract '
-    'Constant; OCaml 4.13.1 driver runner/main.ml',
+    'Constant; OCaml 4.13.1 driver runner/main.ml; on every run a seeded sample of the cases of each suite is '
+    'also evaluated inside Coq (vm_compute in coqc, terms printed by an independent parser, tools/coqcross.py) and '
+    'must give exactly what the extracted runner printed',
     'correspondence check: harness/ (Rust, public API of flatty only), gen/*.py generators, tools/*.py comparison',
     'host: x86-64 Linux, 64-bit usize, little endian, repr(C) as implemented by rustc',
 ]
